@@ -846,8 +846,18 @@ func (ms *MidState) fileContractElement(ts V1TransactionSupplement, id types.Fil
 }
 
 func (ms *MidState) storageProofWindowID(ts V1TransactionSupplement, id types.FileContractID) (types.BlockID, bool) {
-	if i, ok := ms.elements[id]; ok && i < len(ms.fces) && ms.fces[i].FileContractElement.ID == id && ms.fces[i].FileContractElement.FileContract.WindowStart == ms.base.childHeight() {
-		return ms.base.Index.ID, true
+	if i, ok := ms.elements[id]; ok && i < len(ms.fces) && ms.fces[i].FileContractElement.ID == id {
+		// if the contract was revised earlier in this block, its window is the
+		// one of that revision, not the one the supplement describes
+		fc := ms.fces[i].FileContractElement.FileContract
+		if ms.fces[i].Revision != nil {
+			fc = *ms.fces[i].Revision
+		}
+		if fc.WindowStart == ms.base.childHeight() {
+			return ms.base.Index.ID, true
+		} else if ms.fces[i].Revision != nil {
+			return types.BlockID{}, false
+		}
 	}
 	for _, sps := range ts.StorageProofs {
 		if sps.FileContract.ID == id {
